@@ -948,6 +948,29 @@ func main() {
 		f.defSkeleton(p, sk.name, sk.recv, sk.fn)
 	}
 
+	// 12. sub-packages: httpio (reader params) and auth
+	f.comment("httpio and auth: statement skeletons")
+	{
+		hp := load(filepath.Join(*repo, "httpio"))
+		for _, sk := range []struct{ name, recv, fn string }{
+			{"skel_httpio_wrcRead", "waitReadCloser", "Read"},
+			{"skel_httpio_wrcClose", "waitReadCloser", "Close"},
+			{"skel_httpio_ReaderParamDecoder", "", "ReaderParamDecoder"},
+			{"skel_httpio_ReaderParamEncoder", "", "ReaderParamEncoder"},
+		} {
+			f.defSkeleton(hp, sk.name, sk.recv, sk.fn)
+		}
+		ap := load(filepath.Join(*repo, "auth"))
+		for _, sk := range []struct{ name, recv, fn string }{
+			{"skel_auth_HasPerm", "", "HasPerm"},
+			{"skel_auth_WithPerm", "", "WithPerm"},
+			{"skel_auth_PermissionedProxy", "", "PermissionedProxy"},
+			{"skel_auth_ServeHTTP", "Handler", "ServeHTTP"},
+		} {
+			f.defSkeleton(ap, sk.name, sk.recv, sk.fn)
+		}
+	}
+
 	f.lean.WriteString("\nend Jrpc.Generated\n")
 	if *leanOut != "" {
 		if err := os.WriteFile(*leanOut, f.lean.Bytes(), 0o644); err != nil {
